@@ -338,3 +338,42 @@ func endConn(c net.Conn, kind string) {
 		c.Close()
 	}
 }
+
+// ---- a peer that lingers: the stream is kept open after the final answer frame
+
+// lingerHold: how long the peer keeps a stream open whose reader drains it (a handler is registered) before it ends it.
+const lingerHold = 250 * time.Millisecond
+
+// keepAlive writes an SSE comment to c every 100 ms until end() (or until the connection is gone).
+type keepAlive struct {
+	stop chan struct{}
+	wg   sync.WaitGroup
+}
+
+func startKeepAlive(c net.Conn, chunked bool) *keepAlive {
+	k := &keepAlive{stop: make(chan struct{})}
+	k.wg.Add(1)
+	go func() {
+		defer k.wg.Done()
+		t := time.NewTicker(100 * time.Millisecond)
+		defer t.Stop()
+		for {
+			select {
+			case <-k.stop:
+				return
+			case <-t.C:
+				s := ": keep-alive\n\n"
+				if chunked {
+					s = chunk(s)
+				}
+				c.SetWriteDeadline(time.Now().Add(time.Second))
+				if _, err := io.WriteString(c, s); err != nil {
+					return
+				}
+			}
+		}
+	}()
+	return k
+}
+
+func (k *keepAlive) end() { close(k.stop); k.wg.Wait() }
